@@ -190,6 +190,9 @@ func c07Scens(tier string) []msScen {
 						warm == 7 || warm == 37 || (b.cfg.Disk && b.cfg.Variant == "ll" && writes == 1)) {
 						continue
 					}
+					if tier == "thorough" && len(ms) == 3 && !(writes == 1 && (warm == 6 || warm == 0 || warm == 2)) {
+						continue // three pending requests only at the points where content or a part appears
+					}
 					var reqs [][]string
 					for _, k := range ms {
 						reqs = append(reqs, []string{k})
